@@ -7,6 +7,7 @@ import (
 	"encoding/json"
 	"fmt"
 	"math/rand"
+	"os"
 	"strings"
 )
 
@@ -904,10 +905,19 @@ func genInodeReuse(idx int, seed int64, variant int, thorough bool) *Scenario {
 			s.Lines[li].Expect = false // the file is deleted while lines of it are undelivered: nobody can deliver them
 		}
 	}
-	preFirst := r.Intn(2) == 0
+	// rename-over: X is the older generation f0.r1.log and Y the current f0.log already when file.d starts
+	// (a rename while file.d runs makes its maintenance drop the job of the renamed file a few ticks later -
+	// "filename was changed" joins directory and name without a separator - and with it X's entry in the
+	// next saves; no line is lost by that, but this family wants the entry)
+	preFirst := r.Intn(2) == 0 || by == "rename-over"
 	if preFirst {
 		g.add(Op{Kind: "append", File: 0, Lines: X, Chunks: 1 + r.Intn(2)})
 		g.add(Op{Kind: "MARKX", File: 0})
+		if by == "rename-over" {
+			g.add(Op{Kind: "rotate", File: 0})
+			g.appendOp(0, 2+r.Intn(8))
+			g.finishFile(0)
+		}
 	}
 	if r.Intn(2) == 0 {
 		g.appendOp(1, 2+r.Intn(8))
@@ -918,11 +928,8 @@ func genInodeReuse(idx int, seed int64, variant int, thorough bool) *Scenario {
 		g.add(Op{Kind: "append", File: 0, Lines: X, Chunks: 1 + r.Intn(2)})
 		g.add(Op{Kind: "MARKX", File: 0})
 	}
-	if by == "rename-over" {
-		// X becomes the older generation f0.r1.log, the current one is Y
-		g.add(Op{Kind: "rotate", File: 0})
-		g.feature("rotate-running")
-		g.appendOp(0, 2+r.Intn(8))
+	if by == "rename-over" && r.Intn(2) == 0 {
+		g.appendOp(0, 1+r.Intn(6)) // Y grows while running
 		g.finishFile(0)
 	}
 	switch end {
@@ -949,8 +956,12 @@ func genInodeReuse(idx int, seed int64, variant int, thorough bool) *Scenario {
 		g.appendOp(1, 1+r.Intn(6))
 		g.feature("append-down")
 	}
-	g.add(Op{Kind: "START2"})
-	g.add(Op{Kind: "WAITIDLE"}) // the start phase of run 2 is over
+	// probe only (not part of any tier, see NOTES.md): the new file appears while file.d is still down
+	beforeStart := os.Getenv("C03_PROBE_REUSE_BEFORE_START") != "" && where == "down"
+	if !beforeStart {
+		g.add(Op{Kind: "START2"})
+		g.add(Op{Kind: "WAITIDLE"}) // the start phase of run 2 is over
+	}
 	if where == "running" {
 		g.add(Op{Kind: "VANISH", File: 0, Raw: by})
 		g.add(Op{Kind: "WAITGONE"})
@@ -969,6 +980,10 @@ func genInodeReuse(idx int, seed int64, variant int, thorough bool) *Scenario {
 		}
 	}
 	g.add(Op{Kind: "REUSE", File: fNew, Lines: N})
+	if beforeStart {
+		g.feature("PROBE-new-file-created-while-down")
+		g.add(Op{Kind: "START2"})
+	}
 	g.sleepOp(150)
 	if r.Intn(3) > 0 {
 		g.appendOp(fNew, 1+r.Intn(8))
